@@ -16,16 +16,17 @@ IsEv(e) == l <= Len(Rec) /\ Rec[l].ev = e /\ l' = l + 1
 (* (in_transcript - the atom's bytes occur verbatim in the recorded transcript - and challenge_is_sha3 are logged *)
 (*  for information; the property demands only that the challenge changes)                                       *)
 TAtom == IsEv("atom") /\ (r.role = "nonresponse" => r.decodes /\ r.changed)
-THash == IsEv("hash") /\ r.transcript_len > 0
+THash == IsEv("hash") /\ r.transcript_len > 0 /\ r.with_eq_consume     \* with / with_bytes are the chainable variants of consume / consume_bytes
 TPair == IsEv("pair") /\ r.builder_eq_proof /\ r.verifies
 TCtx  == IsEv("ctxbyte") /\ r.changed /\ ~r.accepted
+TCtxSet == IsEv("ctxset") /\ r.distinct_challenges = r.contexts      \* no two contexts are identified
 (* C06: accepted under the original tuple only; a substituted component that is not part of an  *)
 (* equation must at least change the challenge (that is the only thing that can reject it)      *)
 TTuple == /\ IsEv("tuple")
           /\ r.accepted = (r.component = "none")
           /\ (r.component # "none" /\ ~r.in_equation) => r.challenge_changed
 TCloseSub == IsEv("closesub") /\ r.accepted = r.same_value
-TNext == TAtom \/ THash \/ TPair \/ TCtx \/ TTuple \/ TCloseSub
+TNext == TAtom \/ THash \/ TPair \/ TCtx \/ TCtxSet \/ TTuple \/ TCloseSub
 TSpec == l = 1 /\ [][TNext]_l
 Accepted ==
   LET n == TLCGet("stats").diameter - 1 IN
